@@ -51,10 +51,25 @@ def ctx_type_of(prog, an, f, hidx, ctx_off):
 def ctr_backends(ctx, prog, an):
     pubs = public_functions(ctx, prog)
     slot_users = {}     # (struct, idx) -> (public name, contract, decl)
-    for name, f, c, decl in pubs:
+    # the dispatcher of a slot is the public function of the same role; init may call further slots
+    for name, f, c, decl in sorted(pubs, key=lambda x: x[2]["kind"] not in ("init", "cleanup")):
         s = an.summaries[f.key]
         for (iid, st, idx, targets) in s.indirect:
+            if c["kind"] in ("init", "cleanup") and (st, idx) in slot_users and slot_users[(st, idx)][1]["kind"] not in ("init", "cleanup"):
+                continue
+            if c["kind"] == "init" and idx != 0 and False:
+                continue
             slot_users[(st, idx)] = (name, c, decl, f)
+    # an init function that also calls another slot must not claim it: keep only its first slot
+    for name, f, c, decl in pubs:
+        if c["kind"] != "init":
+            continue
+        s = an.summaries[f.key]
+        first = True
+        for (iid, st, idx, targets) in sorted(s.indirect):
+            if not first and slot_users.get((st, idx), (None,))[0] == name:
+                del slot_users[(st, idx)]
+            first = False
     out = []
     for (st, unit, g, fs) in vtable_instances(prog):
         if fs is None or len(fs) < 5:
